@@ -5,7 +5,7 @@ PROP = dict(
     lean_module="AbraProofs.Properties.C20",
     required_theorems=["C20_let_rejected", "C20_var_accepted", "C20_other_forms", "C20_store_takes_effect",
                        "C20_capture_rejected", "C20_assign_total", "C20_table",
-                       "C20_assign_total_old_counterexample", "C20_old_crash_iff", "C20_old_agrees", "C20_pat_mutability"],
+                       "C20_assign_total_old_counterexample", "C20_old_crash_iff", "C20_old_agrees", "C20_pat_mutability", "C20_target_after_scope"],
     harness_bin="c20",
     mismatch_is_violation=True,
     rule="the full table: 44 binding forms (let, var, destructured let/var, let/var patterns with a variant payload / named variant "
@@ -13,7 +13,10 @@ PROP = dict(
          "variant payload, function parameter, lambda parameter, array element of a let array / of a var array / nested, struct "
          "field plain / nested / of an array element, function name; captured let / var / destructured var / for / match / "
          "function parameter / lambda parameter assigned inside a lambda, a nested lambda or a task; a nested lambda's own local; "
-         "element and field of a captured object; and 195 capture-only forms: element / field assignments inside a lambda, a "
+         "element and field of a captured object; 48 shadowing forms (a same-named declaration of the OPPOSITE mutability, or a for / match / lambda-parameter "
+         "binder of that name, inside a while / for / if / else / match arm / block / lambda body, with the assignment after the "
+         "construct closed or inside it, also inside a lambda capturing the outer variable; the target's declaration is decided "
+         "by the Names model through the `assignat` request) and 195 capture-only forms: element / field assignments inside a lambda, a "
          "nested lambda or a task where an outer binding (let, var, for variable, function parameter, match binding) occurs "
          "ONLY as the index, the inner or outer index of a[i][j], the index of s.f[i], the index of a[i].f, the right-hand "
          "side, or the array / struct expression of the target) x 6 operators x 3 contexts (top level, function body, lambda body; captured "
